@@ -3,6 +3,7 @@ assignments."""
 import itertools
 import random
 
+from .. import histprop as H
 from .. import tt, fix
 from ..denote import Den, Builder
 from ..viol import Violation, require
@@ -10,6 +11,7 @@ from ..viol import Violation, require
 ID = 'C10'
 LEVEL = 'exploration'
 RULE = (
+    'H: Hypothesis histories in which support / is_essential / count / pick / pick_iter are queried between constructions, drops, collections (node numbers re-used), swaps, reorderings and (un)declarations. '
     'E: every function of n<=4 variables (n<=3: all orders; n=4: 2 seeded '
     'orders quick / 6 thorough, split in parts), regular and complemented '
     'references: support and is_essential for every declared name and one '
@@ -30,8 +32,24 @@ ASSUMPTIONS = [
 ]
 
 
+HIST_ALPHA = {'build': 10, 'apply': 4, 'queries': 16, 'drop': 8, 'gc': 6, 'swap': 4, 'sift': 1, 'reorder_to': 2, 'declare': 2, 'undeclare': 4, 'var': 1, 'quantify': 1}
+
+
+def _hist_nontrivial(w):
+    return w.labels.get('queries', 0) > 0 and (w.labels.get('gc.number_reused', 0) > 0 or bool(w.nontrivial & {'swap', 'sift', 'reorder_to'}) or w.labels.get('undeclare.removed', 0) > 0)
+
+
+def _hist_plan(tier, seed):
+    cfgs = [dict(kind='bdd', nmax=4, init_vars=3), dict(kind='bdd', nmax=5, init_vars=4), dict(kind='autoref', nmax=4, init_vars=3)]
+    return [dict(kind='history', seed=seed * 1000 + 500 + s, cfgs=cfgs,
+                 examples=1200 if tier == 'thorough' else 200,
+                 min_len=10, max_len=45)
+            for s in range(8 if tier == 'thorough' else 4)]
+
+
 def plan(tier, seed):
     specs = []
+    specs += _hist_plan(tier, seed)
     for n in (0, 1, 2, 3):
         for order in fix.orders(n):
             specs.append(dict(kind='all', n=n, order=order, part=0, parts=1,
@@ -209,10 +227,14 @@ def run_all(spec, out):
 
 
 def run(spec, out):
+    if spec['kind'] == 'history':
+        return H.run_random(spec, out, HIST_ALPHA, _hist_nontrivial)
     run_all(spec, out)
 
 
 def replay_into(case, out):
+    if case.get('kind') == 'history':
+        return H.replay_into(case, out)
     spec = {k: case[k] for k in ('kind', 'n', 'order', 'seed')}
     spec.update(part=case['t'], parts=tt.full(case['n']) + 1,
                 autoref=case['n'] <= 3)
